@@ -56,6 +56,7 @@ type MQ struct {
 	names         map[string]int
 	log           []MQRecord
 	closed        bool
+	lost          bool // connection lost: IsClosed reports true although Close was not called
 	closedCB      func(error)
 	// SubWindow, if set, is called inside Subscribe (no lock of the MQ held)
 	// before it returns: see Sched.Window.
@@ -88,8 +89,19 @@ func NewMQ(canon func(string) string, now func() int) *MQ {
 func (m *MQ) Connect() error {
 	m.mu.Lock()
 	m.closed = false
+	m.lost = false
 	m.mu.Unlock()
 	return nil
+}
+
+// Lose marks the connection to the messaging system as lost (IsClosed
+// reports true from now on, as the NATS adapter does when its connection is
+// gone) and returns the closed handler to be called with the cause.
+func (m *MQ) Lose() func(error) {
+	m.mu.Lock()
+	defer m.mu.Unlock()
+	m.lost = true
+	return m.closedCB
 }
 
 // Close drops all subscriptions and pending requests without completing
@@ -128,7 +140,7 @@ func (m *MQ) Close() {
 func (m *MQ) IsClosed() bool {
 	m.mu.Lock()
 	defer m.mu.Unlock()
-	return m.closed
+	return m.closed || m.lost
 }
 
 func (m *MQ) SetClosedHandler(cb func(error)) {
